@@ -45,18 +45,20 @@ Proof. unfold ends_in_data. rewrite skel_final. apply hstate_eqb_eq. Qed.
 
 Theorem pair_verdict_spec (o o' : bytes) :
   c01_pair_verdict o o' = None <->
-  (skel o = skel o' /\ no_comment_tokens o = true /\ no_comment_tokens o' = true /\
-   r_final (html_tokenize SData o) = SData /\ r_final (html_tokenize SData o') = SData).
+  (skel o = skel o' /\ no_comment_tokens o = true /\ no_comment_tokens o' = true).
 Proof.
   unfold c01_pair_verdict, no_comments.
-  rewrite <- same_structure_spec, <- !ends_in_data_spec.
+  rewrite <- same_structure_spec.
   destruct (no_comment_tokens o); cbn [negb]; [|split; [discriminate | intros (_ & H & _); discriminate H]].
-  destruct (no_comment_tokens o'); cbn [negb]; [|split; [discriminate | intros (_ & _ & H & _); discriminate H]].
+  destruct (no_comment_tokens o'); cbn [negb]; [|split; [discriminate | intros (_ & _ & H); discriminate H]].
   destruct (same_structure o o'); cbn [negb]; [|split; [discriminate | intros (H & _); discriminate H]].
-  destruct (ends_in_data o); cbn [negb]; [|split; [discriminate | intros (_ & _ & _ & H & _); discriminate H]].
-  destruct (ends_in_data o'); cbn [negb]; [|split; [discriminate | intros (_ & _ & _ & _ & H); discriminate H]].
   split; [intros _; repeat split; reflexivity | reflexivity].
 Qed.
+
+(* the final tokenizer state is a component of the skeleton: equal skeletons end in the same state *)
+Theorem same_structure_same_final (o o' : bytes) :
+  same_structure o o' = true -> r_final (html_tokenize SData o) = r_final (html_tokenize SData o').
+Proof. intros H. apply same_structure_spec in H. rewrite <- !skel_final. rewrite H. reflexivity. Qed.
 
 (* non-vacuity of the oracle *)
 Example ex_same_structure :
@@ -71,7 +73,7 @@ Proof. vm_compute. reflexivity. Qed.
 Example ex_placement :
   placement_ok (B "<b title='zq'>zq</b><title>zq</title>") [(10, 2); (14, 2); (27, 2)]%nat = true /\
   placement_ok (B "<b zq>z</b>") [(3, 2)]%nat = false /\
-  placement_ok (B "<script>zq</script>") [(8, 2)]%nat = false /\
+  placement_ok (B "<!DOCTYPE zq>") [(10, 2)]%nat = false /\
   placement_ok (B "<b title=zq>") [(9, 2)]%nat = false.
 Proof. vm_compute. repeat split; reflexivity. Qed.
 
